@@ -252,6 +252,6 @@ def od_resid(dump, i):
 
 
 PARTS = [
-    Part("statistics", strategy=case, oracle=oracle, n={"quick": 400, "thorough": 12000},
+    Part("statistics", strategy=case, oracle=oracle, n={"quick": 1600, "thorough": 12000},
          sample=lambda c: {"alg": c["alg"], "k": c["k"], "gkf": nm.gkf_text(c["net"])[:1200]}),
 ]
